@@ -196,4 +196,11 @@ theorem mem_model_bridge {N : ℕ} (a1 b1 a2 b2 : ℝ) (θ : Fin N → ℝ) :
     mem a1 b1 a2 b2 (List.ofFn fun j => (Real.cos (θ j), Real.sin (θ j), Real.cos (2 * θ j), Real.sin (2 * θ j)))
       = List.ofFn (memF fun j => memRawAt a1 b1 a2 b2 (θ j)) := mem_bridge a1 b1 a2 b2 θ
 
+/-! non-vacuity: the hypotheses of the theorems above are met by concrete inputs -/
+example : (∀ d ∈ ([1, 1, 1] : List ℝ), 0 < d) ∧ ([[1, 0, 1, 0], [0, 1, -1, 0], [-1, 0, 1, 0]] : List (List ℝ)) ≠ [] ∧
+    ([0.1, 0.2, 0, 0] : List ℝ).length = 4 := by
+  refine ⟨?_, by simp, rfl⟩
+  intro d hd; simp at hd; rcases hd with rfl | rfl | rfl <;> norm_num
+example : rotMoments (0 : ℝ) 0.5 0.1 0.2 0 = ((0.5 : ℝ), (0.1 : ℝ), (0.2 : ℝ), (0 : ℝ)) := by simp [rotMoments]
+
 end Osu.Props.C06
